@@ -60,22 +60,5 @@ for sid, meta, cells in rows:
         missed.append((sid, cells.get(tgt)))
 out += ['', '## Target property not detected with a failing input', '']
 out += [f'* {sid}: {c}' for sid, c in missed] or ['none']
-# behaviour-preserving changes: results file lines "<id>: alarms: C13(rc=1,nfi) ..." (empty = no alarm)
-hres = os.path.join(VERIF, 'seeded', 'harmless', 'RESULTS.txt')
-if os.path.exists(hres):
-    out += ['', '## Harmless changes (behaviour-preserving refactorings): any alarm here is a false alarm', '',
-            'Each was confirmed against the repository test suite by the sub-agent that wrote it (`seeded/harmless/<id>/refactor.diff`, `note.txt`)',
-            'and every quick check was run against it (in a scratch worktree through `PJRPC_REPO`).', '',
-            '| change | alarms | what was restructured |', '|---|---|---|']
-    for line in open(hres):
-        m = re.match(r'(H\d) refactor(\d): alarms:(.*)', line.strip())
-        if not m:
-            continue
-        hid = f'{m.group(1)}-{m.group(2)}'
-        note = ''
-        np_ = os.path.join(VERIF, 'seeded', 'harmless', hid, 'note.txt')
-        if os.path.exists(np_):
-            note = ' '.join(open(np_).read().split())[:160].replace('|', '/')
-        out.append(f'| {hid} | {m.group(3).strip() or "none"} | {note} |')
 open(os.path.join(VERIF, 'seeded', 'README.md'), 'w').write('\n'.join(out) + '\n')
 print('\n'.join(out[-(len(missed) + 3):]))
